@@ -1,5 +1,6 @@
 import SemverProofs.Props.C01
 import SemverSpec.NpmKnown
+import SemverProofs.Lemmas.Closed
 /-!
 # C01 without exclusions: the exact characterisation of what the crate computes
 
@@ -199,5 +200,50 @@ theorem known_sat_eq (r : Ast) (hr : ∀ a ∈ r, Alt.noException a) (v : Versio
   constructor
   · rintro ⟨a, ha, h⟩; exact ⟨a, ha, by rw [← key a ha]; exact h⟩
   · rintro ⟨a, ha, h⟩; exact ⟨a, ha, by rw [← key a ha] at h; exact h⟩
+
+/-! ### the same on the wider class of texts: any closed unrecognised token counts as garbage
+
+`AstTextG ClosedGarbage` is the grammar in which a garbage token is *any* blank-free, bar-free token
+that is not a dangling operator, does not start with `-`, and in which the parser recognises no
+comparator (`1.2.3.4`, `>=1.y`, `1.`, `1.2beta4`, `foo`, …).  `Lemmas/Closed.lean` proves that such a
+token disturbs nothing around it.  Every text of `AstText` is one of these (`astText_closed`). -/
+
+/-- **C01_text_closed** -/
+theorem C01_text_closed (r : Ast) (s : List Char) (hs : AstTextG ClosedGarbage r s)
+    (hr : ∀ a ∈ r, Alt.noException a) (R : Range) (hp : Range.parse s = .ok R) (v : Version) (hd : inDomain v) :
+    Range.satisfies R v = Ast.sat r v := by
+  rw [parse_textG closedGarbage_ok hs] at hp
+  split at hp
+  · cases hp
+  · cases hp
+    exact C01_desugar r hr v hd
+
+theorem C01_text_closed_fails_only_if_unsatisfiable (r : Ast) (s : List Char) (hs : AstTextG ClosedGarbage r s)
+    (hr : ∀ a ∈ r, Alt.noException a) (hp : ∀ R, Range.parse s ≠ .ok R) (v : Version) (hd : inDomain v) :
+    Ast.sat r v = false := by
+  rw [parse_textG closedGarbage_ok hs] at hp
+  by_cases he : (evalAst r).isEmpty
+  · exact C01_failure_only_if_unsatisfiable r hr (by simpa using he) v hd
+  · rw [if_neg he] at hp
+    exact absurd rfl (hp _)
+
+/-- without exclusions, on the wider class -/
+theorem C01_text_closed_known (r : Ast) (s : List Char) (hs : AstTextG ClosedGarbage r s) (R : Range)
+    (hp : Range.parse s = .ok R) (v : Version) (hd : inDomain v) :
+    Range.satisfies R v = Known.sat true true r v := by
+  rw [parse_textG closedGarbage_ok hs] at hp
+  split at hp
+  · cases hp
+  · cases hp
+    exact C01_desugar_known r v hd
+
+/-! non-vacuity: `1.2.3.4 ^1.x` — the first token is garbage that begins like a comparator -/
+example : AstTextG ClosedGarbage [.simples [.garbage "1.2.3.4".toList, .caret (.maj 1)]] "1.2.3.4 ^1.x".toList := by
+  refine ⟨[], "1.2.3.4 ^1.x".toList, [], by decide, by decide, by decide, .one (.simples ?_)⟩
+  have g : ClosedGarbage "1.2.3.4".toList :=
+    ⟨⟨by intro c hc; revert c; decide, by decide, by intro u h; cases h⟩, by decide⟩
+  exact .cons (t := "1.2.3.4".toList) (b := [' ']) (.garbage g) (by decide)
+    (.one (.caret (gap := []) (by decide)
+      (Or.inl (.two (A := ['1']) (B := ['x']) (.num numText_one) (.wild (Or.inl rfl)))))) (by simp)
 
 end Semver.C01
